@@ -168,11 +168,7 @@ func (k *Keyed[K, V]) SetKey(key K, start bool) (V, bool) {
 			_ = v.deferRemove.Stop()
 			v.deferRemove = nil
 		}
-		if v.deferRetry != nil {
-			// cancel retrying this key
-			_ = v.deferRetry.Stop()
-			v.deferRetry = nil
-		}
+		// note: a pending retry is only canceled by start() below.
 	}
 	if !existed || start {
 		if k.ctx != nil {
